@@ -36,6 +36,8 @@ import (
 	authtypes "github.com/cosmos/cosmos-sdk/x/auth/types"
 	govtypes "github.com/cosmos/cosmos-sdk/x/gov/types"
 	paramskeeper "github.com/cosmos/cosmos-sdk/x/params/keeper"
+	"github.com/palomachain/paloma/v2/tests/integration/helper"
+	consensustypes "github.com/palomachain/paloma/v2/x/consensus/types"
 	evmkeeper "github.com/palomachain/paloma/v2/x/evm/keeper"
 	evmtypes "github.com/palomachain/paloma/v2/x/evm/types"
 	palomamodule "github.com/palomachain/paloma/v2/x/paloma"
@@ -109,6 +111,11 @@ type env struct {
 	minted   map[string]bool
 	licensed map[int]bool
 	two      bool // second environment (tokenfactory, paloma)
+	three    bool // third environment (integration fixture: consensus queues)
+	f3       *helper.Fixture
+	cons     consensustypes.MsgServer
+	queue    string      // the turnstone queue of the third environment
+	queued   []queuedMsg // relay messages waiting there
 	tf       tftypes.MsgServer
 	tfK      tfkeeper.Keeper
 	tfStore  *storetypes.KVStoreKey
@@ -263,37 +270,15 @@ func (e *env) scan(ctx sdk.Context) map[int]string {
 		nd[i] = needle{[]byte(a), []byte(a.String()), []byte(sdk.ValAddress(a).String())}
 	}
 	hs := make([][]string, len(e.actors))
-	names := make([]string, 0, len(e.keys))
-	for n := range e.keys {
-		names = append(names, n)
-	}
-	sort.Strings(names)
-	for _, n := range names {
-		k := e.keys[n]
-		if _, ok := k.(*storetypes.KVStoreKey); !ok {
-			continue
-		}
-		if n == "acc" || n == "params" {
-			continue // account numbers / legacy params subspaces: nothing a Paloma handler writes
-		}
-		it := ctx.KVStore(k).Iterator(nil, nil)
-		for ; it.Valid(); it.Next() {
-			key, v := it.Key(), it.Value()
-			if n == "bank" {
-				// coins of a tokenfactory denom are their holder's, not the denom creator's whose
-				// address is part of the denom's name
-				key, v = denomNameRe.ReplaceAll(key, []byte("factory/_/")), denomNameRe.ReplaceAll(v, []byte("factory/_/"))
-			}
-			for i := range nd {
-				if bytes.Contains(key, nd[i].raw) || bytes.Contains(key, nd[i].acc) || bytes.Contains(key, nd[i].val) ||
-					bytes.Contains(v, nd[i].raw) || bytes.Contains(v, nd[i].acc) || bytes.Contains(v, nd[i].val) {
-					h := sha256.Sum256(append(append([]byte(n+"|"), key...), v...))
-					hs[i] = append(hs[i], hex.EncodeToString(h[:8]))
-				}
+	e.eachPair(ctx, func(n string, key, v []byte) {
+		for i := range nd {
+			if bytes.Contains(key, nd[i].raw) || bytes.Contains(key, nd[i].acc) || bytes.Contains(key, nd[i].val) ||
+				bytes.Contains(v, nd[i].raw) || bytes.Contains(v, nd[i].acc) || bytes.Contains(v, nd[i].val) {
+				h := sha256.Sum256(append(append([]byte(n+"|"), key...), v...))
+				hs[i] = append(hs[i], hex.EncodeToString(h[:8]))
 			}
 		}
-		it.Close()
-	}
+	})
 	out := map[int]string{}
 	for i := range hs {
 		sort.Strings(hs[i])
@@ -307,9 +292,47 @@ func (e *env) scan(ctx sdk.Context) map[int]string {
 	return out
 }
 
+// eachPair visits every KV pair of every persistent store (account numbers and legacy params
+// subspaces excepted), with two refinements of what a pair is: in the bank store the creator's
+// address inside a tokenfactory denom NAME is blanked (coins are their holder's), and a
+// consensus-queue record is split into its per-validator parts (env3_test.go).
+func (e *env) eachPair(ctx sdk.Context, fn func(store string, key, val []byte)) {
+	names := make([]string, 0, len(e.keys))
+	for n := range e.keys {
+		names = append(names, n)
+	}
+	sort.Strings(names)
+	for _, n := range names {
+		k := e.keys[n]
+		if _, ok := k.(*storetypes.KVStoreKey); !ok || n == "acc" || n == "params" {
+			continue
+		}
+		it := ctx.KVStore(k).Iterator(nil, nil)
+		for ; it.Valid(); it.Next() {
+			key, v := it.Key(), it.Value()
+			if n == "bank" {
+				key, v = denomNameRe.ReplaceAll(key, []byte("factory/_/")), denomNameRe.ReplaceAll(v, []byte("factory/_/"))
+			}
+			if strings.Contains(n, "consensus") {
+				if parts, ok := e.queueVirtualPairs(key, v); ok {
+					for _, p := range parts {
+						fn(n, p[0], p[1])
+					}
+					continue
+				}
+			}
+			fn(n, key, v)
+		}
+		it.Close()
+	}
+}
+
 // governance-held settings of the modules in this environment
 func (e *env) govDigest(ctx sdk.Context) string {
 	var parts []string
+	if e.three {
+		return ""
+	}
 	if e.two {
 		bz, _ := json.Marshal(e.tfK.GetParams(ctx))
 		h := sha256.Sum256(bz)
